@@ -136,6 +136,7 @@ class Machine(object):
         self.self_attrs = self_attrs or {}
         self.globals_const = globals_const or {}
         self.bags = []
+        self.budget_misuse = []     # (node, kind, delta): an early exit on a counter that is not the sum of the counts
         self.hdr_compared = []  # comparisons that read the header of a stream as if it were a data row
         self.stale = []         # comparisons that read a row taken before the latest one of its stream
         self._opq = 0
@@ -244,7 +245,14 @@ class Machine(object):
                             op = {ast.Sub: 'dec', ast.Add: 'inc'}.get(type(s.op))
                             if op is None or c[0] != 'bag':
                                 raise Unknown('augmented store %s' % norm(s))
-                            outs.append(Outcome(st4.emit(op, c, k, v), 'fall'))
+                            st5 = st4.emit(op, c, k, v)
+                            if v[0] == 'c' and isinstance(v[1], int):
+                                # a budget that mirrors the sum of the counts is one off until it is updated as well
+                                d = v[1] if op == 'dec' else -v[1]
+                                for name, val in list(st5.env.items()):
+                                    if isinstance(val, tuple) and val and val[0] == 'budget' and val[1] == c and val[2] == 'total':
+                                        st5 = st5.bind(name, ('budget', c, 'total', val[3] + d))
+                            outs.append(Outcome(st5, 'fall'))
                 return outs
             raise Unknown('augmented assignment %s' % norm(s))
         if isinstance(s, ast.If):
@@ -306,6 +314,9 @@ class Machine(object):
         raise Unknown('assignment target %s' % norm(tgt))
 
     def arith(self, op, a, b, node):
+        if a is not None and b is not None and a[0] == 'budget' and b[0] == 'c' and isinstance(b[1], int) and \
+                not isinstance(b[1], bool) and op in (ast.Sub, ast.Add) and abs(a[3]) < 4:
+            return ('budget', a[1], a[2], a[3] + (b[1] if op is ast.Add else -b[1]))
         if a is not None and b is not None and a[0] == 'c' and b[0] == 'c' and \
                 isinstance(a[1], int) and isinstance(b[1], int) and not isinstance(a[1], bool) and not isinstance(b[1], bool):
             if op is ast.Add:
@@ -653,6 +664,8 @@ class Machine(object):
                         outs.append((NONE, s1.emit('bagcall', recv, f.attr, a)))
                     elif recv[0] == 'bag' and f.attr == 'get' and a:
                         outs.append((('get', recv, a[0]), s1))
+                    elif recv[0] == 'bag' and f.attr == 'values' and not a:
+                        outs.append((('bagvalues', recv), s1))
                     elif recv[0] == 'iter' and f.attr == '__next__':
                         outs.extend(self.next_of(recv, s1, e))
                     else:
@@ -714,6 +727,12 @@ class Machine(object):
                 continue
             if fname == 'bool' and len(a) == 1:
                 outs.extend([(C(bool(t)), s2) for t, s2 in self.truth_of(a[0], s1, e)])
+                continue
+            if fname == 'len' and len(a) == 1 and a[0][0] == 'bag' and local_f is None:
+                outs.append((('budget', a[0], 'distinct', 0), s1))       # number of distinct members
+                continue
+            if fname == 'sum' and len(a) == 1 and a[0][0] == 'bagvalues' and local_f is None:
+                outs.append((('budget', a[0][1], 'total', 0), s1))       # sum of the counts
                 continue
             if fname == 'len' or fname == 'range':
                 outs.append((self.opaque(e), s1))
@@ -790,8 +809,27 @@ class Machine(object):
             return self.atom('opaque@%s' % (v[1] if v[0] == 'opq' else v[1]), st, v)
         if v[0] == 'get':
             # c[k] tested for truth == c[k] > 0 for a count
-            return self.atom('count(%s) > 0' % (self.show(v[2])), st)
+            return self.count_positive(v, st)
+        if v[0] == 'budget':
+            return self.budget_positive(v, st, node)
         raise Unknown('truth test of %s' % (v[0],))
+
+    def count_positive(self, g, st):
+        if st.env.get('$allzero:%s' % (g[1][2],)):
+            return [(False, st)]        # every count is known to be used up
+        return self.atom('count(%s) > 0' % self.show(g[2]), st)
+
+    def budget_positive(self, v, st, node):
+        """a counter derived from a counting container, tested for `anything left`"""
+        bag, kind, delta = v[1], v[2], v[3]
+        if kind != 'total' or delta != 0:
+            self.budget_misuse.append((node, kind, delta))
+            raise Unknown('budget')
+        k = '$allzero:%s' % (bag[2],)
+        if st.env.get(k):
+            return [(False, st)]
+        return [(True, st.note('atom', 'counts left in bag@%s' % bag[2], True)),
+                (False, st.bind(k, True).note('atom', 'counts left in bag@%s' % bag[2], False))]
 
     def atom(self, text, st, v=None):
         k = '$atom:' + text
@@ -868,7 +906,7 @@ class Machine(object):
                 if flip:
                     o = {ast.Lt: ast.Gt, ast.Gt: ast.Lt, ast.LtE: ast.GtE, ast.GtE: ast.LtE, ast.Eq: ast.Eq}[op]
                 # a count is 0 or positive: the test is decided per case where it is the same for every positive count
-                pos = self.atom('count(%s) > 0' % self.show(g[2]), st)
+                pos = self.count_positive(g, st)
                 c = other[1]
                 f = {ast.Gt: lambda n: n > c, ast.GtE: lambda n: n >= c, ast.Lt: lambda n: n < c, ast.LtE: lambda n: n <= c,
                      ast.Eq: lambda n: n == c}[o]
@@ -883,6 +921,18 @@ class Machine(object):
                         res.append((vals.pop(), s))
                 return out(res)
             raise Unknown('comparison of a count with %s' % self.show(other))
+        if a[0] == 'budget' or b[0] == 'budget':
+            g, other, flip = (a, b, False) if a[0] == 'budget' else (b, a, True)
+            if other == ('c', 0):
+                o = op
+                if flip:
+                    o = {ast.Lt: ast.Gt, ast.Gt: ast.Lt, ast.LtE: ast.GtE, ast.GtE: ast.LtE, ast.Eq: ast.Eq}[op]
+                pos = self.budget_positive(g, st, node)
+                if o in (ast.Gt,):
+                    return out(pos)
+                if o in (ast.Eq, ast.LtE):
+                    return out([(not r, s2) for r, s2 in pos])
+            raise Unknown('comparison of a budget')
         data = ('row', 'app')
         sent = ('c', 'obj')
         if a[0] in data and b[0] in sent or b[0] in data and a[0] in sent:
